@@ -104,3 +104,253 @@ def c24(prop, tier, replay):
 
 
 REGISTRY = {"C24": c24}
+
+
+# ------------------------------------------------------------------------------------------------
+# C22 / C23: compile and run the generated code
+# ------------------------------------------------------------------------------------------------
+AST_FLAGS = ["lr", "clipA", "clipT", "memT", "memN", "opt", "rep", "grp", "nest", "allclip", "boxed", "range", "trim", "userT", "ntt"]
+
+
+def ast_template(on):
+    """PAR text for a feature set and a list of (sentence tokens, expected AST tokens)"""
+    on = set(on)
+    c = "^" if "allclip" in on else ""
+    s = "%start S\n%title \"t\"\n%comment \"c\"\n"
+    if "lr" in on:
+        s += "%grammar_type 'LALR(1)'\n"
+    if "ntt" in on:
+        s += "%nt_type Num = crate::ut::Num\n"
+    s += "%%\n"
+    a = "A" + ("^" if "clipA" in on else "")
+    bpart = "{ [ 'y'" + c + " ] B }" if "nest" in on else ("{ B }" if "rep" in on else "B")
+    cc = "C" + ("@copt" if "memN" in on else "")
+    cpart = f"[ {cc} ]" if "opt" in on else cc
+    d = "'d'" + ("^" if c else ("@dee" if "memT" in on else ""))
+    e = "'e'" + ("^" if (c or "clipT" in on) else "")
+    dpart = f"( {d} | {e} )" if "grp" in on else d
+    s += f"S: {a} {bpart} {cpart} {dpart} Num;\n"
+    s += f"A: 'a'{c};\nB: 'b'{c} 'x'{c};\nC: 'c'{c};\n"
+    if "ntt" in on:
+        s += f"Num: /[0-9]+/{c};\n"
+    elif "userT" in on and not c:
+        s += "Num: /[0-9]+/ : crate::ut::Num;\n"
+    else:
+        s += f"Num: /[0-9]+/{c};\n"
+    # sentences
+    cases = []
+    nbs = [0, 1, 3] if ("rep" in on or "nest" in on) else [1]
+    hcs = [False, True] if "opt" in on else [True]
+    des = ["d", "e"] if "grp" in on else ["d"]
+    for nb in nbs:
+        for hc in hcs:
+            for de in des:
+                for ys in ([False, True] if "nest" in on and nb else [False]):
+                    toks = ["a"]
+                    exp = [] if ("clipA" in on or c) else ["a"]
+                    for i in range(nb):
+                        if ys and i == 1 % max(nb, 1):
+                            toks.append("y")
+                            if not c:
+                                exp.append("y")
+                        toks += ["b", "x"]
+                        if not c:
+                            exp += ["b", "x"]
+                    if hc:
+                        toks.append("c")
+                        if not c:
+                            exp.append("c")
+                    toks.append(de)
+                    if not c and not (de == "e" and "clipT" in on):
+                        exp.append(de)
+                    toks.append("7")
+                    if not c:
+                        exp.append("7")
+                    cases.append((toks, exp, {"nb": nb, "has_c": hc}))
+    return s, cases
+
+
+def genprobe(prop, tier, replay, run):
+    import re, shutil
+    from pvlib import tlc_gen
+    t0 = time.time()
+    rep = Reporter(prop, tier)
+    root = os.path.join(pvlib.BUILD, f"genprobe_{prop}")
+    src = os.path.join(root, "src")
+    shutil.rmtree(src, ignore_errors=True)
+    os.makedirs(src, exist_ok=True)
+    # feature sets from Gen_Flags
+    vec = os.path.join(OUT, f"{prop}_{tier}.vec.ndjson")
+    if replay:
+        case = json.load(open(replay))["case"]
+        sets = [case["flags"]]
+        g = {"generated": 0, "distinct": 0}
+    else:
+        k = 2 if tier == "quick" else 3
+        parts = []
+        g = {"generated": 0, "distinct": 0}
+        for (lo, hi, tag) in ((0, k, "a"), (len(AST_FLAGS) - 1, len(AST_FLAGS), "b")):
+            part = vec + tag
+            gg = tlc_gen("Gen_Flags", {"Flags": set(AST_FLAGS), "MinOn": lo, "MaxOn": hi}, ["Emit"], 1, part, spec="Spec",
+                         run_prefix=f"{prop}_{tier}_{tag}", no_shard_consts=True)
+            parts += [json.loads(l)["flags"] for l in open(part)]
+            os.remove(part)
+            g["generated"] += gg["generated"]
+            g["distinct"] += gg["distinct"]
+        sets = parts
+    repo = (pvlib.ALT_REPO or "/repo").rstrip("/")
+    mods = []
+    inputs = []
+    rejected = 0
+    for i, flags in enumerate(sets):
+        par, cases = ast_template(flags)
+        pf = os.path.join(root, f"g{i}.par")
+        open(pf, "w").write(par)
+        args = [pvlib.PV, "builder", pf, src, f"G{i}", f"g{i}"] + [f for f in ("boxed", "range", "trim") if f in flags]
+        r = subprocess.run(args, stdout=subprocess.PIPE, stderr=subprocess.PIPE, text=True, timeout=300)
+        st = None
+        for l in r.stdout.splitlines():
+            if l.startswith("PVGEN "):
+                st = json.loads(l[6:])
+        if not st or st["status"] != "ok":
+            # the template grammars are all meant to be accepted
+            rep.violation({"flags": flags, "par": par, "what": "generation"}, f"parol did not generate code for feature set {flags}: {st} {r.stderr[-300:]}")
+            rejected += 1
+            continue
+        tsrc = open(os.path.join(src, f"g{i}_trait.rs")).read()
+        m = re.search(r"pub trait (G%dTrait)(<'t>)?" % i, tsrc)
+        has_lt = bool(m and m.group(2))
+        s_lt = bool(re.search(r"pub struct S<'t>", tsrc))
+        lt = "<'t>" if has_lt else ""
+        stub = f"""use crate::g{i}_trait::{{G{i}Trait, S}};
+#[allow(unused_imports)]
+use parol_runtime::Result;
+pub struct G{i}{lt} {{ pub count: usize, pub dbg: String, {"_p: std::marker::PhantomData<&'t ()>," if has_lt else ""} }}
+impl{lt} G{i}{lt} {{ pub fn new() -> Self {{ Self {{ count: 0, dbg: String::new(), {"_p: std::marker::PhantomData," if has_lt else ""} }} }} }}
+impl{lt} G{i}Trait{lt} for G{i}{lt} {{
+    fn s(&mut self, arg: &S{"<'t>" if s_lt else ""}) -> Result<()> {{ self.count += 1; self.dbg = format!("{{arg:?}}"); Ok(()) }}
+}}
+pub fn run(input: &str) -> (bool, usize, String) {{
+    let mut g = G{i}::new();
+    let ok = crate::g{i}_parser::parse(input, "in.txt", &mut g).is_ok();
+    (ok, g.count, g.dbg.clone())
+}}
+"""
+        if "ntt" in flags:
+            # %nt_type Num = crate::ut::Num: the user supplies the conversion from the generated non-terminal type
+            nlt = "<'t>" if re.search(r"pub struct Num<'t>", tsrc) else ""
+            stub += f"""impl{nlt} TryFrom<&crate::g{i}_trait::Num{nlt}> for crate::ut::Num {{
+    type Error = anyhow::Error;
+    fn try_from(n: &crate::g{i}_trait::Num{nlt}) -> std::result::Result<Self, Self::Error> {{
+        let d = format!("{{n:?}}");
+        let t = d.split("text: \\"").nth(1).and_then(|r| r.split('"').next()).unwrap_or("").to_string();
+        Ok(crate::ut::Num(t))
+    }}
+}}
+"""
+        open(os.path.join(src, f"g{i}.rs"), "w").write(stub)
+        mods.append(i)
+        for toks, exp, shape in cases:
+            inputs.append({"i": i, "text": " ".join(toks), "exp": exp, "flags": flags, "shape": shape})
+    open(os.path.join(src, "ut.rs"), "w").write("""use parol_runtime::Token;
+#[derive(Clone)]
+pub struct Num(pub String);
+impl std::fmt::Debug for Num { fn fmt(&self, f: &mut std::fmt::Formatter<'_>) -> std::fmt::Result { if self.0.is_empty() { write!(f, "Num(clipped)") } else { write!(f, "Token {{ text: {:?} }}", self.0) } } }
+impl<'t> TryFrom<&Token<'t>> for Num { type Error = anyhow::Error; fn try_from(t: &Token<'t>) -> std::result::Result<Self, Self::Error> { Ok(Num(t.text().to_string())) } }
+impl parol_runtime::ToSpan for Num { fn span(&self) -> parol_runtime::Span { parol_runtime::Span::default() } }
+""")
+    lib = "#![allow(clippy::all, unused, non_camel_case_types)]\npub mod ut;\n" + "".join(f"pub mod g{i};\npub mod g{i}_trait;\npub mod g{i}_parser;\n" for i in mods)
+    open(os.path.join(src, "lib.rs"), "w").write(lib)
+    main = "use std::io::BufRead;\nfn main() {\n    for line in std::io::stdin().lock().lines() {\n        let line = line.unwrap();\n        let (i, text) = line.split_once('\\t').unwrap();\n        let r = match i.parse::<usize>().unwrap() {\n"
+    main += "".join(f"            {i} => genprobe::g{i}::run(text),\n" for i in mods)
+    main += "            _ => (false, 0, String::new()),\n        };\n        println!(\"{}\\t{}\\t{}\\t{}\", i, r.0, r.1, r.2.replace('\\n', \" \"));\n    }\n}\n"
+    open(os.path.join(src, "main.rs"), "w").write(main)
+    open(os.path.join(root, "Cargo.toml"), "w").write(f"""[package]
+name = "genprobe"
+version = "0.0.0"
+edition = "2024"
+[workspace]
+[dependencies]
+parol_runtime = {{ path = "{repo}/crates/parol_runtime" }}
+anyhow = "1"
+scnr2 = "0.5.2"
+[profile.dev]
+debug = 0
+opt-level = 0
+""")
+    if not os.path.exists(os.path.join(root, "Cargo.lock")):
+        shutil.copy(os.path.join(repo, "Cargo.lock"), os.path.join(root, "Cargo.lock"))
+    log(f"[genprobe] {len(mods)} generated parsers, compiling ...")
+    r = subprocess.run(["cargo", "build", "--offline", "--message-format=short"], cwd=root, stdout=subprocess.PIPE, stderr=subprocess.STDOUT,
+                       text=True, timeout=3000, env=dict(os.environ, CARGO_NET_OFFLINE="true", CARGO_TARGET_DIR=os.path.join(root, "target")))
+    compile_ok = r.returncode == 0
+    bad_mods = {}
+    if not compile_ok:
+        for l in r.stdout.splitlines():
+            m = re.match(r"src/g(\d+)(_trait|_parser)?\.rs:\d+:\d+: error(\[E\d+\])?: (.*)", l)
+            if m:
+                bad_mods.setdefault(int(m.group(1)), []).append(l[:300])
+        if not bad_mods:
+            raise ToolError("genprobe crate does not compile for a reason outside the generated modules:\n" + r.stdout[-3000:])
+        for i, errs in bad_mods.items():
+            flags = sets[i]
+            rep.violation({"flags": flags, "par": ast_template(flags)[0], "what": "compile"},
+                          f"generated code for feature set {flags} does not compile: {errs[0]} (+{len(errs)-1} more)")
+    ran = 0
+    nontrivial = 0
+    if run and compile_ok:
+        data = "".join(f"{x['i']}\t{x['text']}\n" for x in inputs)
+        rr = subprocess.run([os.path.join(root, "target", "debug", "genprobe")], input=data, stdout=subprocess.PIPE, stderr=subprocess.PIPE,
+                            text=True, timeout=600)
+        lines = rr.stdout.splitlines()
+        if len(lines) != len(inputs):
+            raise ToolError(f"genprobe answered {len(lines)} of {len(inputs)} inputs: {rr.stderr[-1000:]}")
+        for x, l in zip(inputs, lines):
+            _, ok, count, dbg = l.split("\t", 3)
+            toks = re.findall(r'text: "([^"]*)"', dbg)
+            ran += 1
+            nontrivial += len(x["exp"]) >= 3
+            what = None
+            if ok != "true":
+                what = "sentence rejected"
+            elif count != "1":
+                what = f"start symbol action called {count} times"
+            elif toks != x["exp"]:
+                what = f"AST tokens {toks} != expected {x['exp']}"
+            else:
+                shape = x["shape"]
+                fl = set(x["flags"])
+                if "opt" in fl and "allclip" not in fl:
+                    some = "Some(" in dbg
+                    # the optional C is the only optional of the start production
+                    if shape["has_c"] != some and "nest" not in fl:
+                        what = f"optional part present={some}, occurred={shape['has_c']}"
+            if what:
+                rep.violation({"flags": x["flags"], "par": ast_template(x["flags"])[0], "what": "ast", "text": x["text"]},
+                              f"{what} for input '{x['text']}' with features {x['flags']}: {dbg[:300]}")
+    rc = rep.finish()
+    cov = {"evaluations": len(sets) + ran, "distinct_nontrivial": len(mods) if not run else nontrivial,
+           "rule": "feature sets of the AST-relevant PAR features (" + ", ".join(AST_FLAGS) + f"): every subset of <= {2 if tier == 'quick' else 3} features and every "
+                   "subset missing at most one, enumerated by Gen_Flags.tla; each becomes a template grammar generated through the real "
+                   "parol::build::Builder (the path a build.rs takes) into one crate with a stub user type shaped like `parol new`'s and path "
+                   "dependencies on the repository's parol_runtime; `cargo build --offline` must succeed (C22); " +
+                   ("the binary then parses the template's sentences: accepted, start action called exactly once, the tokens found in the "
+                    "Debug rendering of the AST, in order, are the non-clipped tokens of the input, optional present iff it occurred (C23). "
+                    if run else "") + "non-trivial: " + ("inputs with >= 3 AST tokens" if run else "grammar generated"),
+           "samples": [{"flags": sets[0], "par": ast_template(sets[0])[0]}, {"flags": sets[-1]}],
+           "modules_compiled": len(mods), "inputs_run": ran, "tlc_states": g["distinct"], "known_findings_seen": rep.known}
+    write_evidence(prop, tier, "exploration", cov, time.time() - t0, len(rep.violations),
+                   ["rustc decides 'compiles'; the TLA+ side contributes the enumeration of feature combinations (Gen_Flags.tla)",
+                    "user types: one terminal-level user type with TryFrom<&Token>; %nt_type conversion types are not exercised"])
+    return rc
+
+
+def c22(prop, tier, replay):
+    return genprobe(prop, tier, replay, run=False)
+
+
+def c23(prop, tier, replay):
+    return genprobe(prop, tier, replay, run=True)
+
+
+REGISTRY.update({"C22": c22, "C23": c23})
